@@ -24,6 +24,12 @@ MC_EXTRA = {
     "C18": [("MC_raft_prevote.cfg", 1800, 12)],
 }
 
+# quick tier extras: small configurations that exercise a mechanism the base configuration has switched off
+MC_QUICK_EXTRA = {
+    "C18": [("MC_raft_cq_small.cfg", 600, 8)],      # CheckQuorum on: CheckQuorumLease
+    "C03": [("MC_raft_cq_small.cfg", 600, 8)],
+}
+
 TIERS = {
     # batches per combo, traces per batch, steps per trace
     "quick": (2, 60, 300),
@@ -76,7 +82,7 @@ def check(prop, tier, replay_path):
         if not replay_path:
             from common import run_tlc, SPEC
             import os as _os
-            for cfgname, timeout, workers in MC_CFGS[tier] + (MC_EXTRA.get(prop, []) if tier == "thorough" else []):
+            for cfgname, timeout, workers in MC_CFGS[tier] + MC_QUICK_EXTRA.get(prop, []) + (MC_EXTRA.get(prop, []) if tier == "thorough" else []):
                 res = run_tlc(scr, "MCRaft", _os.path.join(SPEC, cfgname), workers=workers, timeout=timeout,
                               tag="mc." + cfgname, jvm=["-Xmx14g"])
                 if res.error == "timeout":
